@@ -872,21 +872,22 @@ fn write_general_subtrees(writer: DERWriter, tag: u64, general_subtrees: &[Gener
 		writer.write_sequence(|writer| {
 			for subtree in general_subtrees.iter() {
 				writer.next().write_sequence(|writer| {
-					writer
-						.next()
-						.write_tagged_implicit(
-							Tag::context(subtree.tag()),
-							|writer| match subtree {
-								GeneralSubtree::Rfc822Name(name)
-								| GeneralSubtree::DnsName(name) => writer.write_ia5_string(name),
-								GeneralSubtree::DirectoryName(name) => {
-									write_distinguished_name(writer, name)
-								},
-								GeneralSubtree::IpAddress(subnet) => {
-									writer.write_bytes(&subnet.to_bytes())
-								},
-							},
-						);
+					let tag = Tag::context(subtree.tag());
+					match subtree {
+						GeneralSubtree::Rfc822Name(name) | GeneralSubtree::DnsName(name) => writer
+							.next()
+							.write_tagged_implicit(tag, |writer| writer.write_ia5_string(name)),
+						// directoryName is a `Name`, which is a CHOICE type: its context
+						// tag can't be IMPLICIT, it has to be written as an EXPLICIT tag.
+						GeneralSubtree::DirectoryName(name) => writer
+							.next()
+							.write_tagged(tag, |writer| write_distinguished_name(writer, name)),
+						GeneralSubtree::IpAddress(subnet) => {
+							writer.next().write_tagged_implicit(tag, |writer| {
+								writer.write_bytes(&subnet.to_bytes())
+							})
+						},
+					}
 					// minimum must be 0 (the default) and maximum must be absent
 				});
 			}
